@@ -2,6 +2,7 @@
 import FunsorVerif.Core.Sexp
 import FunsorVerif.Core.XR
 import FunsorVerif.Model.C14
+import FunsorVerif.Model.C14Subs
 import FunsorVerif.Gen.C14Variant
 namespace FV.Drv.C14
 open FV FV.C14
@@ -24,6 +25,48 @@ def asInputs? (s : Sexp) : Option Inputs := do
 
 def strs (l : List String) : Sexp := Sexp.list (l.map Sexp.atom)
 
+/-! Wire glue for Model/C14Subs: points / weights / values arrive as row-major tables over their declared
+    dependencies (sizes from `vars`); the harness only evaluates at in-range environments over names it
+    declared, so the `getD` defaults below are never used. -/
+open FV.C14.Subs in
+def envOf (a : List (String × Nat)) : Env := fun k => (a.lookup k).getD 0
+
+open FV.C14.Subs in
+def tabFn {α : Type} (dflt : α) (vars : Inputs) (deps : List String) (data : List α) : Env → α := fun env =>
+  let sizes := deps.map fun d => (vars.lookup d).getD 1
+  (data[encode sizes (deps.map env)]?).getD dflt
+
+open FV.C14.Subs in
+def asTerm? (vars : Inputs) : Sexp → Option DTerm
+  | Sexp.list [n, deps, pt, w] => do
+    let n ← n.asStr?
+    let deps ← deps.asStrs?
+    let pt ← pt.asNats?
+    let w ← asRats? w
+    pure ⟨n, deps, tabFn 0 vars deps pt, tabFn 0 vars deps w⟩
+  | _ => none
+
+open FV.C14.Subs in
+def asSub? (vars : Inputs) : Sexp → Option (String × SVal)
+  | Sexp.list [n, Sexp.atom "var", y] => do
+    let n ← n.asStr?
+    let y ← y.asStr?
+    pure (n, SVal.var y)
+  | Sexp.list [n, Sexp.atom "val", deps, data] => do
+    let n ← n.asStr?
+    let deps ← deps.asStrs?
+    let data ← data.asNats?
+    pure (n, SVal.val deps (tabFn 0 vars deps data))
+  | _ => none
+
+open FV.C14.Subs in
+def denTable (vars : Inputs) (out : List String) (f : Env → Rat) : Sexp :=
+  let sizes := out.map fun d => (vars.lookup d).getD 1
+  ratsToSexp ((allIdx sizes).map fun e => f (envOf (out.zip e)))
+
+open FV.C14.Subs in
+def dnfInputs (d : DNF) : List String := inputsOf d.terms
+
 /--
   C14 delta-eval (p…) ld (v…)          Delta.eager_subs ground branch                → xr
   C14 delta-sum n p w (f…)             Σ_{x<n} δ_p^w(x)·f x  (spec)  and  w·f p (model) → spec model
@@ -34,6 +77,10 @@ def strs (l : List String) : Sexp := Sexp.list (l.map Sexp.atom)
   C14 variant                          the generated variant
   C14 delta-subset (sizes…) (mask…) (pt…) (w…) (f flat…) (x…)
         → specIntegrate modelIntegrate specReduce(unit mass on the reduced names) modelReduce
+  C14 delta-subs vars (term…) (sub…) (out…)     term = (name (deps…) (pt…) (w…)), sub = (name var y) | (name val (deps…) (v…))
+        → kind (term names…) (declared inputs of the terms…) nScales (model density over out…) (spec: original at substEnv…)
+  C14 delta-add vars (term…) (term…) (out…)
+        → branch (term names…) nScales (model density…) (spec: product of the two densities…)
   C14 sample ((name size)…) (data…) (sampled…) nParticles (r…)
         → (batch names) (event names) (particle…), particle = (row…),
           row = ((b…) (pt…) z massOfSample massOfOriginal)
@@ -96,6 +143,33 @@ def handle (args : List Sexp) : String :=
           ++ toString (ratToSexp (sumMask sizes mask (fun t => deltaProd pt unitWs t * f t) x)) ++ " "
           ++ toString (ratToSexp (deltaReduceSubset mask pt ws f x))
     | _, _, _, _, _, _ => "err bad-args"
+  | [Sexp.atom "delta-subs", vars, terms, subs, out] =>
+    match asInputs? vars, out.asStrs? with
+    | some vars, some out =>
+      match terms.asList?.bind (fun l => l.mapM (asTerm? vars)), subs.asList?.bind (fun l => l.mapM (asSub? vars)) with
+      | some ts, some sb =>
+        let d := FV.C14.Subs.deltaSubs sb ts
+        let kind := match FV.C14.Subs.shape d with
+          | none => "none" | some (.delta _) => "delta" | some (.scale _) => "scale" | some (.both _ _) => "both"
+        "ok " ++ kind ++ " " ++ toString (strs (FV.C14.Subs.freshOf d.terms)) ++ " " ++ toString (strs (dnfInputs d)) ++ " "
+          ++ toString d.scales.length ++ " " ++ toString (denTable vars out d.den) ++ " "
+          ++ toString (denTable vars out fun env => FV.C14.Subs.termsDen ts (FV.C14.Subs.substEnv sb env))
+      | _, _ => "err bad-args"
+    | _, _ => "err bad-args"
+  | [Sexp.atom "delta-add", vars, lhs, rhs, out] =>
+    match asInputs? vars, out.asStrs? with
+    | some vars, some out =>
+      match lhs.asList?.bind (fun l => l.mapM (asTerm? vars)), rhs.asList?.bind (fun l => l.mapM (asTerm? vars)) with
+      | some l, some r =>
+        let d := FV.C14.Subs.addMultidelta l r
+        let branch :=
+          if (FV.C14.Subs.freshOf l).any (FV.C14.Subs.inputsOf r).contains then "left-binds"
+          else if (FV.C14.Subs.freshOf r).any (FV.C14.Subs.inputsOf l).contains then "right-binds" else "concat"
+        "ok " ++ branch ++ " " ++ toString (strs (FV.C14.Subs.freshOf d.terms)) ++ " " ++ toString d.scales.length ++ " "
+          ++ toString (denTable vars out d.den) ++ " "
+          ++ toString (denTable vars out fun env => FV.C14.Subs.termsDen l env * FV.C14.Subs.termsDen r env)
+      | _, _ => "err bad-args"
+    | _, _ => "err bad-args"
   | [Sexp.atom "variant"] =>
     let v := FV.Gen.C14.variant
     "ok " ++ (match v.cmp with | Cmp.lt => "lt" | Cmp.le => "le") ++ " " ++ toString v.dropLast ++ " "
